@@ -69,6 +69,8 @@ pub struct CaseCtx {
     /// known-finding clauses observed and tolerated inside a multi-part case
     pub known_hits: Vec<String>,
     pub known: std::sync::Arc<HashSet<String>>,
+    /// the index/tape denotes no case at all (not counted)
+    pub skipped: bool,
 }
 
 impl CaseCtx {
@@ -85,6 +87,7 @@ impl CaseCtx {
             excluded: Vec::new(),
             known_hits: Vec::new(),
             known,
+            skipped: false,
         }
     }
     pub fn label(&mut self, l: impl Into<String>) {
@@ -297,7 +300,7 @@ impl<'p> Worker<'p> {
             }
         };
         let mut st = self.stats.borrow_mut();
-        if !st.frozen {
+        if !st.frozen && !ctx.skipped {
             st.cases += 1;
             st.evaluations += ctx.evals.max(1);
             if ctx.nontrivial {
